@@ -51,7 +51,15 @@ type Gen struct {
 	P *Profile
 	R *Runner
 	T *rapid.T
+	// queue: the rest of a macro (a short fixed sequence that sets up a state
+	// single random draws rarely reach); drained before anything else is drawn
+	queue []Op
 }
+
+// MacroSnapRoundtrip (a weight key in Profile.W, not an operation): snapshot a
+// subscription, ack some of what it holds, let time pass, seek back to the
+// snapshot.
+const MacroSnapRoundtrip = "Macro/snapshot-ack-wait-seek"
 
 func names(prefix string, n int) []string {
 	out := make([]string, n)
@@ -268,6 +276,11 @@ func newUUIDish(t *rapid.T) string {
 
 // Next draws the next operation from the current model state.
 func (g *Gen) Next() Op {
+	if len(g.queue) > 0 {
+		op := g.queue[0]
+		g.queue = g.queue[1:]
+		return op
+	}
 	t, p, m := g.T, g.P, g.R.M
 	var kinds []string
 	for k, w := range p.W {
@@ -448,6 +461,20 @@ func (g *Gen) Next() Op {
 				at = time.Duration(rapid.Int64Range(0, int64(span)).Draw(t, "seekat"))
 			}
 			return Op{K: k, S: s, At: int64(at)}
+		case MacroSnapRoundtrip:
+			if len(ls) == 0 {
+				continue
+			}
+			sname := rapid.SampledFrom(ls).Draw(t, "sub")
+			hs := g.subset(g.handles(sname, isOut), "macro-ack")
+			if len(hs) == 0 {
+				continue
+			}
+			n := rapid.SampledFrom(names("n", 3)).Draw(t, "snap")
+			ret := m.LiveSub(sname).Cfg.retention()
+			wait := rapid.SampledFrom([]time.Duration{time.Second, time.Minute, 5 * time.Minute, ret / 2, ret / 2}).Draw(t, "macro-wait")
+			g.queue = []Op{{K: OpAck, S: sname, H: hs}, {K: OpAdvance, D: int64(wait)}, {K: OpSeekSnap, S: sname, N: n}}
+			return Op{K: OpSnapshot, N: n, S: sname}
 		case OpSnapshot:
 			if len(ls) == 0 {
 				continue
